@@ -136,7 +136,7 @@ func listKV(l *dt.List[kv], capN int) ([]kv, bool) {
 
 func runC17(r *kit.Run) {
 	cmps := c17comparators()
-	n := int64(r.Scale(30000, 2000000))
+	n := int64(r.Scale(30000, 10000000))
 	for i := int64(0); i < n && !r.Stopped(); i++ {
 		if !r.Mine(i) {
 			continue
